@@ -303,11 +303,16 @@ def main(tier, seed):
             path = str(d / "db.csv")
             pts = [rpoint(rng, reserved_ok=False) for _ in range(4)] + [{"time": _us(2021, 11, 7, 8, 30), "meas": "fold", "tags": {}, "fields": {"n": 1}},
                                                                         {"time": _us(2021, 3, 14, 10, 30), "meas": "gap", "tags": {}, "fields": {"n": 2}}]
-            db = tf.TinyFlux(path)
-            for p in pts:
-                db.insert(M.real_point(tf, p), compact_key_prefixes=rng.random() < 0.5)
-            live = [M.canon_point(q) for q in db.all(sorted=False)]
-            db.close()
+            try:
+                db = tf.TinyFlux(path)
+                try:
+                    for p in pts:
+                        db.insert(M.real_point(tf, p), compact_key_prefixes=rng.random() < 0.5)
+                    live = [M.canon_point(q) for q in db.all(sorted=False)]
+                finally:
+                    db.close()
+            except Exception as e:  # noqa  writing valid points and reading them on the live object must not fail
+                live = ("raise", type(e).__name__)
             try:
                 db2 = tf.TinyFlux(path)
                 try:
